@@ -325,12 +325,13 @@ def Owes (s : State) (ep id i : Nat) : Prop :=
   s.epoch = ep ∧ ∃ x ∈ s.live, x.id = id ∧ x.seenAttr < i
 
 /-- the owing subscription has been in the table since change `i` was recorded: it is in the table,
-or in the reporter's context whose snapshot already covers `i`; its last-success instant `R` and its
-maximum interval `M` are fixed -/
-def Track (s : State) (ep id i R M : Nat) : Prop :=
+or in the reporter's context whose snapshot already covers `i`; its last-success instant `R`, its
+maximum interval `M` and its resume instant `Z` are fixed -/
+def Track (s : State) (ep id i R M Z : Nat) : Prop :=
   s.epoch = ep ∧ ∃ x : Sub, x.id = id ∧ x.seenAttr < i ∧ x.reportedAt = R ∧ x.maxInt = M ∧
+    x.resumedAt = Z ∧
     (x ∈ s.subs ∨ (∃ c ∈ s.ctxs, c.sub = x ∧ i ≤ c.nextAttr ∧
-        ∃ r, s.reporting = some r ∧ r.id = id ∧ r.reportedAt = R ∧ r.maxInt = M))
+        ∃ r, s.reporting = some r ∧ r.id = id ∧ r.reportedAt = R ∧ r.maxInt = M ∧ r.resumedAt = Z))
 
 /-! ### what `report_complete` does to the fields -/
 theorem reportComplete_fields (s : State) (sub : Sub) (keep : Bool) :
@@ -373,28 +374,28 @@ theorem uid_ctx_inj {s : State} (h : UID s) {c c' : Ctx} (hc : c ∈ s.ctxs) (hc
   simp only [State.live, List.map_append, List.map_map] at h1
   exact nodup_map_inj (f := (fun x : Sub => x.id) ∘ (fun c : Ctx => c.sub)) (List.nodup_append.mp h1).2.1 c hc c' hc' hid
 
-theorem track_step {s : State} {ep id i R M : Nat} (op : Op) (hwf : WF s) (hu : UID s)
-    (hlog : ∃ p, (i, p) ∈ s.log) (ht : Track s ep id i R M)
+theorem track_step {s : State} {ep id i R M Z : Nat} (op : Op) (hwf : WF s) (hu : UID s)
+    (hlog : ∃ p, (i, p) ∈ s.log) (ht : Track s ep id i R M Z)
     (hseq : ∀ now ev, op = .report now ev → s.reporting = none)
-    (ho : Owes (s.step op) ep id i) : Track (s.step op) ep id i R M := by
-  obtain ⟨hep, x, hid, hseen, hR, hM, hpos⟩ := ht
+    (ho : Owes (s.step op) ep id i) : Track (s.step op) ep id i R M Z := by
+  obtain ⟨hep, x, hid, hseen, hR, hM, hZ, hpos⟩ := ht
   cases op with
-  | change p => exact ⟨hep, x, hid, hseen, hR, hM, hpos⟩
+  | change p => exact ⟨hep, x, hid, hseen, hR, hM, hZ, hpos⟩
   | add now fab peer mn mx ev =>
     simp only [State.step, State.add]
     split
-    · exact ⟨hep, x, hid, hseen, hR, hM, hpos⟩
-    · refine ⟨hep, x, hid, hseen, hR, hM, ?_⟩
-      rcases hpos with hx | ⟨c, hc, hcx, hci, r, hr, h1, h2, h3⟩
+    · exact ⟨hep, x, hid, hseen, hR, hM, hZ, hpos⟩
+    · refine ⟨hep, x, hid, hseen, hR, hM, hZ, ?_⟩
+      rcases hpos with hx | ⟨c, hc, hcx, hci, r, hr, h1, h2, h3, h4⟩
       · left; exact hx
-      · right; exact ⟨c, List.mem_append_left _ hc, hcx, hci, r, hr, h1, h2, h3⟩
+      · right; exact ⟨c, List.mem_append_left _ hc, hcx, hci, r, hr, h1, h2, h3, h4⟩
   | report now ev =>
-    rcases hpos with hx | ⟨c, hc, hcx, hci, r, hr, h1, h2, h3⟩
+    rcases hpos with hx | ⟨c, hc, hcx, hci, r, hr, h1, h2, h3, h4⟩
     · simp only [State.step]
       rcases report_shape (s := s) (now := now) (ev := ev) with h1 | ⟨j, sub, hs, h1⟩
-      · rw [h1]; exact ⟨hep, x, hid, hseen, hR, hM, Or.inl hx⟩
+      · rw [h1]; exact ⟨hep, x, hid, hseen, hR, hM, hZ, Or.inl hx⟩
       · rw [h1]
-        refine ⟨hep, x, hid, hseen, hR, hM, ?_⟩
+        refine ⟨hep, x, hid, hseen, hR, hM, hZ, ?_⟩
         have hp := swapRemove_perm hs
         rcases List.mem_cons.mp (hp.mem_iff.mpr hx) with rfl | hx'
         · right
@@ -402,7 +403,7 @@ theorem track_step {s : State} {ep id i R M : Nat} (op : Op) (hwf : WF s) (hu : 
           have h3 := watermark_eq hwf.nextPos hwf.nextLt
           have h4 := hwf.logBelow (i, p) hp'
           simp only at h4
-          refine ⟨_, List.mem_append_right _ (List.mem_singleton.mpr rfl), rfl, ?_, x, rfl, hid, hR, hM⟩
+          refine ⟨_, List.mem_append_right _ (List.mem_singleton.mpr rfl), rfl, ?_, x, rfl, hid, hR, hM, hZ⟩
           simp only; omega
         · left; exact hx'
     · have := hseq now ev rfl
@@ -410,15 +411,15 @@ theorem track_step {s : State} {ep id i R M : Nat} (op : Op) (hwf : WF s) (hu : 
   | fin id' f =>
     simp only [State.step] at ho ⊢
     cases hf : s.ctxs.find? (fun c => c.sub.id == id') with
-    | none => rw [fin_none hf]; exact ⟨hep, x, hid, hseen, hR, hM, hpos⟩
+    | none => rw [fin_none hf]; exact ⟨hep, x, hid, hseen, hR, hM, hZ, hpos⟩
     | some c' =>
       rw [fin_eq hf] at ho ⊢
       have hc'm : c' ∈ s.ctxs := List.mem_of_find?_eq_some hf
       have hc'p : c'.sub.id = id' := by simpa using List.find?_some hf
       obtain ⟨f1, f2, f3, f4, f5, f6⟩ := reportComplete_fields
         ({ s with ctxs := s.ctxs.eraseP (fun c => c.sub.id == id') }) (finSub s.hz c' f) (finKeep f)
-      rcases hpos with hx | ⟨c, hc, hcx, hci, r, hr, h1, h2, h3⟩
-      · refine ⟨by rw [f2]; exact hep, x, hid, hseen, hR, hM, Or.inl ?_⟩
+      rcases hpos with hx | ⟨c, hc, hcx, hci, r, hr, h1, h2, h3, h4⟩
+      · refine ⟨by rw [f2]; exact hep, x, hid, hseen, hR, hM, hZ, Or.inl ?_⟩
         rcases f6 with f6 | f6 <;> rw [f6]
         · exact hx
         · exact List.mem_append_left _ hx
@@ -449,15 +450,16 @@ theorem track_step {s : State} {ep id i R M : Nat} (op : Op) (hwf : WF s) (hu : 
             | keep => simp only [finSub, Ctx.commit] at hyseen; omega
             | drop => simp only [finSub, Ctx.commit] at hyseen; omega
             | retry =>
-              refine ⟨by rw [f2]; exact hep, _, hyid, hyseen, ?_, ?_, Or.inl hys⟩
+              refine ⟨by rw [f2]; exact hep, _, hyid, hyseen, ?_, ?_, ?_, Or.inl hys⟩
               · simp only [finSub, Ctx.commit, Ctx.setKeepRetry]; rw [hcx]; exact hR
               · simp only [finSub, Ctx.commit, Ctx.setKeepRetry]; rw [hcx]; exact hM
+              · simp only [finSub, Ctx.commit, Ctx.setKeepRetry]; rw [hcx]; exact hZ
         · -- another context ends
           have hne : c'.sub.id ≠ c.sub.id := fun h => hcc (uid_ctx_inj hu hc'm hc h)
           have hpc : ¬ ((fun c : Ctx => c.sub.id == id') c = true) := by
             simp only [beq_iff_eq]
             intro h; exact hne (hc'p.trans h.symm)
-          refine ⟨by rw [f2]; exact hep, x, hid, hseen, hR, hM, Or.inr ⟨c, ?_, hcx, hci, r, ?_, h1, h2, h3⟩⟩
+          refine ⟨by rw [f2]; exact hep, x, hid, hseen, hR, hM, hZ, Or.inr ⟨c, ?_, hcx, hci, r, ?_, h1, h2, h3, h4⟩⟩
           · rw [f1]; exact (List.mem_eraseP_of_neg (p := fun c : Ctx => c.sub.id == id') (a := c) hpc).mpr hc
           · refine reportComplete_reporting_ne _ hr ?_
             rw [finSub_id, h1, ← hid, ← hcx]
@@ -477,13 +479,13 @@ theorem track_step {s : State} {ep id i R M : Nat} (op : Op) (hwf : WF s) (hu : 
           exact List.Perm.append_right _ hr
         obtain ⟨_, y, hy, hyid, _⟩ := ho
         exact uid_excl hu hp hxr y hy (hyid.trans hid.symm)
-      · exact ⟨hep, x, hid, hseen, hR, hM, Or.inl hxs⟩
-    · exact ⟨hep, x, hid, hseen, hR, hM, Or.inr hpos⟩
+      · exact ⟨hep, x, hid, hseen, hR, hM, hZ, Or.inl hxs⟩
+    · exact ⟨hep, x, hid, hseen, hR, hM, hZ, Or.inr hpos⟩
   | purge =>
     simp only [State.step, State.purge]
     repeat' split
-    all_goals exact ⟨hep, x, hid, hseen, hR, hM, hpos⟩
-  | persist => exact ⟨hep, x, hid, hseen, hR, hM, hpos⟩
+    all_goals exact ⟨hep, x, hid, hseen, hR, hM, hZ, hpos⟩
+  | persist => exact ⟨hep, x, hid, hseen, hR, hM, hZ, hpos⟩
   | restart now ev =>
     have := ho.1
     simp only [State.step] at this
@@ -616,6 +618,9 @@ theorem fin_own {s : State} {ep id i : Nat} {f : Fin} {c : Ctx} (hu : UID s) (hc
 
 /-! ## Fair schedules and eventual delivery -/
 
+/-- what `is_expired` measures from: the last success, or the resume instant while not primed -/
+def Sub.expiryBase (x : Sub) : Nat := if x.reportedAt = IMAX then x.resumedAt else x.reportedAt
+
 /-- **Fairness** of a schedule (hypotheses about the tasks around the table and about the transport;
 none of them says that a report is delivered to a primed subscriber):
 * `seq`: there is one reporter task — it begins a report only after its previous report context was
@@ -625,10 +630,11 @@ none of them says that a report is delivered to a primed subscriber):
   reports) uses a `now ≥ T`;
 * `completes`: every begun priming / report eventually completes — its context is dropped after
   `set_keep`, `set_keep_retry` or plainly;
-* `primes`: a subscription that is not primed (priming in progress, or resumed from the persisted
-  records after a restart) does not stay so forever: it gets primed or it ends.  `is_expired` never
-  fires while `reported_at = Instant::MAX`, so for a resumed subscription this is an assumption
-  about the transport (see `resumed_never_expires`);
+* `primes`: a priming completes: a subscription that has neither a last success nor a resume instant
+  (`expiryBase = Instant::MAX`: it was just added and its priming report is in progress — `subscribe()`
+  ends a priming context with `set_keep` or a plain drop, never with `set_keep_retry`) does not stay so
+  for ever.  A subscription resumed after a restart is *not* covered by this clause: it expires one
+  maximum interval after the resume instant like any other;
 * `horizon`: the clock does not reach `Instant::MAX` within a maximum interval of a live
   subscription. -/
 structure Fair (hz n : Nat) (sched : Nat → Op) : Prop where
@@ -636,11 +642,11 @@ structure Fair (hz n : Nat) (sched : Nat → Op) : Prop where
   sweeps : ∀ k T, T < IMAX → ∃ k' now p, k ≤ k' ∧ T ≤ now ∧ sched k' = .remove p ∧
     (∀ x : Sub, x.isExpired hz now = true → p x = true) ∧ (stateAt hz n sched k').reporting = none
   completes : ∀ k, ∀ c ∈ (stateAt hz n sched k).ctxs, ∃ k' f, k ≤ k' ∧ sched k' = .fin c.sub.id f
-  primes : ∀ k, ∀ x ∈ (stateAt hz n sched k).live, x.reportedAt = IMAX →
+  primes : ∀ k, ∀ x ∈ (stateAt hz n sched k).live, x.expiryBase = IMAX →
     ∃ k', k ≤ k' ∧ ((stateAt hz n sched k').epoch ≠ (stateAt hz n sched k).epoch ∨
-      ∀ y ∈ (stateAt hz n sched k').live, y.id = x.id → y.reportedAt ≠ IMAX)
-  horizon : ∀ k, ∀ x ∈ (stateAt hz n sched k).live, x.reportedAt ≠ IMAX →
-    x.reportedAt + x.maxInt * hz < IMAX
+      ∀ y ∈ (stateAt hz n sched k').live, y.id = x.id → y.expiryBase ≠ IMAX)
+  horizon : ∀ k, ∀ x ∈ (stateAt hz n sched k).live, x.expiryBase ≠ IMAX →
+    x.expiryBase + x.maxInt * hz < IMAX
 
 theorem inv_stateAt (hz n : Nat) (sched : Nat → Op)
     (hw : ∀ k, (stateAt hz n sched k).changed.nextId + 1 < U64) :
@@ -652,10 +658,11 @@ theorem inv_stateAt (hz n : Nat) (sched : Nat → Op)
     have := inv_step (sched k) ih.1 ih.2.1 (hw k)
     exact ⟨this.1, this.2, uid_step (sched k) ih.2.2⟩
 
-theorem expired_of {x : Sub} {hz now R M : Nat} (hR : x.reportedAt = R) (hM : x.maxInt = M)
-    (hh : R + M * hz < IMAX) (hn : R + M * hz ≤ now) : x.isExpired hz now = true := by
-  have h2 : R + M * hz ≤ IMAX := by omega
-  simp only [Sub.isExpired, checkedAdd, hR, hM, h2, if_true, hn, decide_true]
+theorem expired_of {x : Sub} {hz now B M : Nat} (hB : x.expiryBase = B) (hM : x.maxInt = M)
+    (hh : B + M * hz < IMAX) (hn : B + M * hz ≤ now) : x.isExpired hz now = true := by
+  have h2 : B + M * hz ≤ IMAX := by omega
+  unfold Sub.expiryBase at hB
+  simp only [Sub.isExpired, checkedAdd, hB, hM, h2, if_true, hn, decide_true]
 
 /-- **Eventual delivery.** Along a fair schedule without change-id wrap, a subscription that owes a
 recorded change does not owe it forever: a report whose snapshot covers the change is acknowledged
@@ -685,9 +692,9 @@ theorem eventually_not_owes {hz n : Nat} {sched : Nat → Op} (hf : Fair hz n sc
     | zero => exact hlog
     | succ d ih => exact log_mono_step (sched (k + d)) (hstep (k + d) (by omega)) ih
   -- a tracked subscription stays tracked
-  have L2 : ∀ k1, k ≤ k1 → ∀ R M, Track (stateAt hz n sched k1) ep id i R M →
-      ∀ d, Track (stateAt hz n sched (k1 + d)) ep id i R M := by
-    intro k1 hk1 R M ht d
+  have L2 : ∀ k1, k ≤ k1 → ∀ R M Z, Track (stateAt hz n sched k1) ep id i R M Z →
+      ∀ d, Track (stateAt hz n sched (k1 + d)) ep id i R M Z := by
+    intro k1 hk1 R M Z ht d
     induction d with
     | zero => exact ht
     | succ d ih =>
@@ -698,10 +705,11 @@ theorem eventually_not_owes {hz n : Nat} {sched : Nat → Op} (hf : Fair hz n sc
       exact track_step (sched (k1 + d)) (hinv (k1 + d)).1 (hinv (k1 + d)).2.2 hl ih
         (fun now ev h => hf.seq (k1 + d) now ev h) (H (k1 + d + 1) (by omega))
   -- the subscription gets into the table (or is tracked in the reporter's context)
-  have L3 : ∃ k1, k ≤ k1 ∧ ∃ R M, Track (stateAt hz n sched k1) ep id i R M := by
+  have L3 : ∃ k1, k ≤ k1 ∧ ∃ R M Z, Track (stateAt hz n sched k1) ep id i R M Z := by
     obtain ⟨_, x, hx, hxid, hxseen⟩ := H k (Nat.le_refl k)
     rcases mem_live.mp hx with hxs | ⟨c, hc, hcx⟩
-    · exact ⟨k, Nat.le_refl k, x.reportedAt, x.maxInt, hep k (Nat.le_refl k), x, hxid, hxseen, rfl, rfl, Or.inl hxs⟩
+    · exact ⟨k, Nat.le_refl k, x.reportedAt, x.maxInt, x.resumedAt, hep k (Nat.le_refl k), x, hxid, hxseen,
+        rfl, rfl, rfl, Or.inl hxs⟩
     · obtain ⟨k', f, hk', hs⟩ := hf.completes k c hc
       obtain ⟨k1, hk1, ⟨f1, hs1⟩, hmin⟩ :=
         exists_first (P := fun m => ∃ f, sched m = .fin c.sub.id f) k ⟨k', hk', f, hs⟩
@@ -722,49 +730,53 @@ theorem eventually_not_owes {hz n : Nat} {sched : Nat → Op} (hf : Fair hz n sc
       simp only [stateAt, hs1, State.step] at ho1
       rw [hidc] at ho1
       obtain ⟨hm, hlt⟩ := fin_own (hinv k1).2.2 hck1 hidc ho1
-      refine ⟨k1 + 1, by omega, _, _, hep (k1 + 1) (by omega), finSub (stateAt hz n sched k1).hz c f1, ?_, hlt, rfl, rfl, Or.inl ?_⟩
+      refine ⟨k1 + 1, by omega, _, _, _, hep (k1 + 1) (by omega), finSub (stateAt hz n sched k1).hz c f1, ?_, hlt,
+        rfl, rfl, rfl, Or.inl ?_⟩
       · rw [finSub_id]; exact hidc
       · simp only [stateAt, hs1, State.step]; rw [hidc]; exact hm
-  obtain ⟨k1, hk1, R, M, ht⟩ := L3
-  obtain ⟨_, x, hxid, hxseen, hxR, hxM, hxpos⟩ := ht
+  obtain ⟨k1, hk1, R, M, Z, ht⟩ := L3
+  obtain ⟨_, x, hxid, hxseen, hxR, hxM, hxZ, hxpos⟩ := ht
   have hxlive : x ∈ (stateAt hz n sched k1).live := by
     rcases hxpos with h | ⟨c, hc, hcx, _⟩
     · exact mem_live.mpr (Or.inl h)
     · exact mem_live.mpr (Or.inr ⟨c, hc, hcx⟩)
-  have ht : Track (stateAt hz n sched k1) ep id i R M := ⟨hep k1 hk1, x, hxid, hxseen, hxR, hxM, hxpos⟩
-  by_cases hR : R = IMAX
-  · -- not primed: it gets primed or ends (fairness), but a tracked subscription keeps `R`
-    obtain ⟨k', hk', h⟩ := hf.primes k1 x hxlive (hxR.trans hR)
+  have ht : Track (stateAt hz n sched k1) ep id i R M Z :=
+    ⟨hep k1 hk1, x, hxid, hxseen, hxR, hxM, hxZ, hxpos⟩
+  have hbase : ∀ y : Sub, y.reportedAt = R → y.resumedAt = Z → y.expiryBase = x.expiryBase := by
+    intro y h1 h2
+    simp only [Sub.expiryBase, h1, h2, hxR, hxZ]
+  by_cases hB : x.expiryBase = IMAX
+  · -- neither a last success nor a resume instant: the priming is in progress; it completes
+    -- (fairness), but a tracked subscription keeps `R` and `Z`
+    obtain ⟨k', hk', h⟩ := hf.primes k1 x hxlive hB
     rcases h with h | h
     · exact h ((hep k' (by omega)).trans (hep k1 hk1).symm)
-    · have := L2 k1 hk1 R M ht (k' - k1)
+    · have := L2 k1 hk1 R M Z ht (k' - k1)
       rw [show k1 + (k' - k1) = k' by omega] at this
-      obtain ⟨_, x', hx'id, _, hx'R, _, hx'pos⟩ := this
+      obtain ⟨_, x', hx'id, _, hx'R, _, hx'Z, hx'pos⟩ := this
       have hx'live : x' ∈ (stateAt hz n sched k').live := by
         rcases hx'pos with h | ⟨c, hc, hcx, _⟩
         · exact mem_live.mpr (Or.inl h)
         · exact mem_live.mpr (Or.inr ⟨c, hc, hcx⟩)
-      exact h x' hx'live (hx'id.trans hxid.symm) (hx'R.trans hR)
-  · -- primed: one maximum interval after its last success the expiry sweep removes it
-    have hh : R + M * hz < IMAX := by
-      have := hf.horizon k1 x hxlive (by rw [hxR]; exact hR)
-      rwa [hxR, hxM] at this
-    obtain ⟨k', now, pr, hk', hnow, hs, hp, hrep⟩ := hf.sweeps k1 (R + M * hz) hh
-    have t1 := L2 k1 hk1 R M ht (k' - k1 + 1)
+      exact h x' hx'live (hx'id.trans hxid.symm) ((hbase x' hx'R hx'Z).trans hB)
+  · -- one maximum interval after its last success (its resume instant) the expiry sweep removes it
+    have hh : x.expiryBase + M * hz < IMAX := by
+      have := hf.horizon k1 x hxlive hB
+      rwa [hxM] at this
+    obtain ⟨k', now, pr, hk', hnow, hs, hp, hrep⟩ := hf.sweeps k1 (x.expiryBase + M * hz) hh
+    have t1 := L2 k1 hk1 R M Z ht (k' - k1 + 1)
     rw [show k1 + (k' - k1 + 1) = k' + 1 by omega] at t1
-    obtain ⟨_, x'', _, _, hR'', hM'', hpos''⟩ := t1
+    obtain ⟨_, x'', _, _, hR'', hM'', hZ'', hpos''⟩ := t1
     simp only [stateAt, hs, State.step] at hpos''
     obtain ⟨cx, hsh⟩ := remove_shape (stateAt hz n sched k') pr
     rw [hsh] at hpos''
     rcases hpos'' with h | ⟨c, _, _, _, r, hr, _⟩
     · have h1 := removeLoop_all pr ((stateAt hz n sched k').subs.length + 1) (stateAt hz n sched k').subs
         (stateAt hz n sched k').count (by omega) x'' h
-      have h2 := hp x'' (expired_of hR'' hM'' hh hnow)
+      have h2 := hp x'' (expired_of (hbase x'' hR'' hZ'') hM'' hh hnow)
       rw [h1] at h2; cases h2
     · simp only [rmTo] at hr
       rw [hrep] at hr; cases hr
-
-
 
 /-! ## Restart: what `load_persist` builds -/
 
@@ -805,9 +817,9 @@ theorem resumeAll_capacity (now ev : Nat) : ∀ (rs : List Rec) (s : State), s.c
 /-- every subscription of the table built by `load_persist` is not primed (its next report is a full
 priming report), carries the intervals of a persisted record and a fresh watermark -/
 theorem resumeAll_subs (now ev : Nat) : ∀ (rs : List Rec) (s : State),
-    (∀ x ∈ s.subs, x.reportedAt = IMAX ∧ x.retryAt = 0 ∧ x.seenAttr = s.changed.watermark) →
+    (∀ x ∈ s.subs, x.reportedAt = IMAX ∧ x.retryAt = 0 ∧ x.seenAttr = s.changed.watermark ∧ x.resumedAt = now) →
     ∀ x ∈ (rs.foldl (fun st r => st.resumeOne r now ev) s).subs,
-      x.reportedAt = IMAX ∧ x.retryAt = 0 ∧ x.seenAttr = s.changed.watermark := by
+      x.reportedAt = IMAX ∧ x.retryAt = 0 ∧ x.seenAttr = s.changed.watermark ∧ x.resumedAt = now := by
   intro rs
   induction rs with
   | nil => intro s h; exact h
@@ -825,7 +837,7 @@ theorem resumeAll_subs (now ev : Nat) : ∀ (rs : List Rec) (s : State),
         simp only [List.mem_append, List.mem_singleton] at hx
         rcases hx with hx | rfl
         · exact h x hx
-        · exact ⟨rfl, rfl, rfl⟩)
+        · exact ⟨rfl, rfl, rfl, rfl⟩)
     rw [hc] at this
     exact this
 
@@ -850,7 +862,7 @@ theorem resumeAll_map (now ev : Nat) : ∀ (rs : List Rec) (s : State), s.count 
 
 /-! ## The reporter picks an owing subscription up -/
 
-theorem removeLoop_perm' (p : Sub → Bool) : ∀ (fuel : Nat) (subs : List Sub) (count : Nat),
+theorem removeLoop_perm_all (p : Sub → Bool) : ∀ (fuel : Nat) (subs : List Sub) (count : Nat),
     ∃ rem, (rem ++ (removeLoop p fuel subs count).1).Perm subs ∧ ∀ y ∈ rem, p y = true := by
   intro fuel
   induction fuel with
@@ -911,7 +923,7 @@ theorem leaves_table {s : State} (op : Op) {x : Sub} (hx : x ∈ s.subs) (hn : x
     simp only [State.step] at hn
     obtain ⟨cx, h1⟩ := remove_shape s p
     rw [h1] at hn
-    obtain ⟨rem, hr, hall⟩ := removeLoop_perm' p (s.subs.length + 1) s.subs s.count
+    obtain ⟨rem, hr, hall⟩ := removeLoop_perm_all p (s.subs.length + 1) s.subs s.count
     rcases List.mem_append.mp (hr.mem_iff.mpr hx) with h | h
     · exact hall x h
     · exact absurd h hn
